@@ -465,7 +465,7 @@ def answer_of(o, c, mtype):
     for e in fs:
         if e[3] in ("ack", "welcome"):
             continue
-        out.append(list(e[3:]))
+        out.append(list(e[3:-1]))           # (without the send time stamp: answers are compared across instants)
     return out
 
 
